@@ -1337,6 +1337,21 @@ def f(x: fp.Real, y: fp.Real) -> tuple[fp.Real, fp.Real]:
 ''', 'f', ['real', 'real'], ['analysis', 'branch', 'no_ref'])
 
 
+# ---- format-inference shapes reported against the unmodified tree by the C14 seeding agent (recorded as known findings) ----------
+prog('fmt_loop_writes_iterated_list', '''
+@fp.fpy
+def f(xs: list[fp.Real], y: fp.Real) -> fp.Real:
+    with C4:
+        acc = y
+        for x in xs:
+            with fp.REAL:
+                xs[1] = y * 64
+            acc = x
+    return acc
+''', 'f', [('list', [2, 3]), 'real'], ['analysis', 'no_ref'])
+
+
+
 def namespace():
     """contexts the corpus programs refer to by name"""
     import fpy2 as fp
